@@ -199,3 +199,43 @@ func VerifHTMLEmbedDataURI(n int) {
 	}
 	vReach("end")
 }
+
+var verifSchemePrefixes = []string{"javascript:", "JavaScript:", " JAVASCRIPT:"}
+
+// VerifHTMLEventScheme: <a onclick="javascript:P">t with P = n bytes over { a space ; } (n = 0: the scheme alone): the
+// scheme is not part of the script: the JS minifier gets exactly the payload (possibly empty) in inline mode; an
+// attribute whose value ends up empty is dropped.
+func VerifHTMLEventScheme(n int) {
+	p := vBytes("p", n)
+	for i := range p {
+		c := p[i]
+		vAssume(vB2I(c == 'a')+vB2I(c == ' ')+vB2I(c == ';') != 0)
+	}
+	prefix := verifSchemePrefixes[vChoice("prefix", len(verifSchemePrefixes))]
+	jsM := vChoice("js", 2)
+	m := verifRegistry(0, jsM, 0)
+	in := append(append([]byte("<a onclick=\""+prefix), p...), "\">t"...)
+	payload := append([]byte(nil), p...)
+	for len(payload) > 0 && rhWS(payload[len(payload)-1]) {
+		payload = payload[:len(payload)-1]
+	}
+	verifCalls = nil
+	w := &vWriter{}
+	err := (&Minifier{}).Minify(m, w, &vReader{b: in}, nil)
+	out := w.buf
+	vReach("after-call")
+	vOutput("out", out)
+	vAssert(err == nil, "no error")
+	_, attrs, _, ok := rhStartTag(out)
+	vAssert(ok, "start tag")
+	if jsM == 1 {
+		vAssert(len(verifCalls) == 1 && verifCalls[0].inline == "1" && rhEq(verifCalls[0].data, payload), "the JS minifier gets the payload without the scheme, in inline mode")
+		exp := append(append([]byte("[["), payload...), "]]"...)
+		vAssert(len(attrs) == 1 && rhEq(attrs[0].val, exp), "attribute value is what the embedded minifier produced")
+	} else if len(payload) == 0 {
+		vAssert(len(attrs) == 0, "empty handler: attribute dropped")
+	} else {
+		vAssert(len(attrs) == 1 && rhEq(attrs[0].val, payload), "no minifier registered: the payload passes through")
+	}
+	vReach("end")
+}
